@@ -5,6 +5,7 @@
 -/
 import Lean.Data.Json
 import IoosQc.Props.Spec
+import IoosQc.Model.Defaults
 
 open Lean
 
@@ -83,18 +84,19 @@ def asCall (j : Json) : D TestCall := do
     pure (.gross (← field j "fail" >>= asSeqArg) (← getOpt asSeqArg j "suspect") (← vs "inp"))
   | "valid" => do
     pure (.valid (← getOpt asRat j "lo") (← getOpt asRat j "hi")
-      (← field j "start_incl" >>= asBool) (← field j "end_incl" >>= asBool) (← vs "inp"))
+      ((← getOpt asBool j "start_incl").getD Defaults.validStartInclusive)
+      ((← getOpt asBool j "end_incl").getD Defaults.validEndInclusive) (← vs "inp"))
   | "location" => do
-    pure (.location (← vs "lon") (← vs "lat") (← field j "bbox" >>= asSeqArg)
+    pure (.location (← vs "lon") (← vs "lat") ((← getOpt asSeqArg j "bbox").getD ⟨true, Defaults.locationBBox⟩)
       (← orat "range_max") (← vs "hops"))
   | "climatology" => do
     pure (.climatology (← field j "members" >>= asList asMember) (← vs "inp") (← ts "t") (← vs "z"))
   | "spike" => do
-    pure (.spike (← field j "method" >>= asStr) (← orat "sus") (← orat "fail") (← vs "inp"))
+    pure (.spike ((← getOpt asStr j "method").getD Defaults.spikeMethod) (← orat "sus") (← orat "fail") (← vs "inp"))
   | "roc" => do pure (.roc (← vs "inp") (← ts "t") (← rat "thr"))
-  | "flat" => do pure (.flatLine (← vs "inp") (← ts "t") (← rat "sus") (← rat "fail") (← rat "tol"))
+  | "flat" => do pure (.flatLine (← vs "inp") (← ts "t") (← rat "sus") (← rat "fail") ((← orat "tol").getD Defaults.flatTolerance))
   | "atten" => do
-    pure (.attenuated (← field j "check_type" >>= asStr) (← vs "inp") (← ts "t") (← rat "sus")
+    pure (.attenuated ((← getOpt asStr j "check_type").getD Defaults.attenCheckType) (← vs "inp") (← ts "t") (← rat "sus")
       (← rat "fail") (← orat "period") (← getOpt asNat j "min_obs") (← orat "min_period"))
   | "density" => do pure (.density (← vs "inp") (← vs "z") (← orat "sus") (← orat "fail"))
   | "pressure" => do pure (.pressure (← vs "inp"))
